@@ -463,6 +463,47 @@ func runC16(c *Ctx) {
 					}
 				}
 			}
+			// and the test leads somewhere: knowing the error is not nil, no return is reachable that answers with
+			// something else than the status made from it
+			if tested {
+				for _, r := range *call.Referrers() {
+					ex, ok := r.(*ssa.Extract)
+					if !ok || ex.Index != 1 {
+						continue
+					}
+					fromErr := func(v ssa.Value) bool {
+						for _, l := range leavesOf(v) {
+							cl, ok := l.V.(*ssa.Call)
+							if !ok || calleeName(&cl.Call) != "statusFromError" {
+								return false
+							}
+							uses := false
+							for _, a := range cl.Call.Args {
+								for _, la := range leavesOf(a) {
+									if la.V == ssa.Value(ex) {
+										uses = true
+									}
+								}
+							}
+							if !uses {
+								return false
+							}
+						}
+						return true
+					}
+					if len(nilTests(ex)) == 0 {
+						tested = false // compared, but nothing branches on the comparison
+					}
+					for _, t := range nilTests(ex) {
+						if reachFromNilSide(t, true, func(in ssa.Instruction) bool {
+							ret, ok := in.(*ssa.Return)
+							return ok && len(ret.Results) == 1 && !fromErr(ret.Results[0])
+						}, func(ssa.Instruction) bool { return false }) {
+							tested = false
+						}
+					}
+				}
+			}
 			c.check(tested, "R3", "Readdir error ends the listing", pos(call), "err != nil => STATUS (EOF ends the client's loop)", "the error of Readdir is ignored: the client never sees EOF")
 		}
 	}
@@ -485,6 +526,9 @@ func runC16(c *Ctx) {
 	// R18 / R19 (shared with C17.R2, C17.R8): the owner and the times of a listed entry
 	c.withOnly("R2", "R18", func() { runC17(c) })
 	checkTimesAreUnsigned32(c, "R19")
+	// R20 (shared with C08.O3): a NAME batch that fills a frame to exactly the limit is a legal reply
+	c.withRule("R20", func() { checkFrameLimits(c, newZWorld(p)) })
+	checkOpendirOpensDirectories(c, "R21")
 	// R14 (shared with C05.R3/C10.R5): a lister's end of directory — io.EOF, bare or wrapped the way filelist itself
 	// accepts it — is answered with SSH_FX_EOF, which is what ends the client's loop successfully
 	c.withRule("R14", func() { checkErrorShapes(c, "R3") })
@@ -1498,4 +1542,68 @@ func (p *Program) optionBody(name string) *ssa.Function {
 		}
 	}
 	return p.Func(name + "$1")
+}
+
+// checkOpendirOpensDirectories (C16.R21): the os-backed server's OPENDIR looks at what the path names before it
+// opens it: a directory is opened, anything else is answered with ENOTDIR.  On the side of the IsDir test where the
+// answer is "yes" the open must be reached, on the other side it must not — the test the wrong way round refuses
+// every directory and hands out handles for plain files.
+func checkOpendirOpensDirectories(c *Ctx, rule string) {
+	p := c.P
+	hp := p.Func("handlePacket")
+	open := p.Func("(*Server).openfile")
+	if hp == nil || open == nil {
+		c.missing(rule, "handlePacket / (*Server).openfile")
+		return
+	}
+	opens := func(region map[*ssa.BasicBlock]bool) bool {
+		found := false
+		for _, f := range p.moduleCalleesIn(hp, region) {
+			if f == open || p.cone(f)[open] {
+				found = true
+			}
+		}
+		return found
+	}
+	n := 0
+	eachInstr(hp, func(in ssa.Instruction) {
+		call, ok := in.(*ssa.Call)
+		if !ok || !call.Call.IsInvoke() || call.Call.Method.Name() != "IsDir" {
+			return
+		}
+		for _, r := range *call.Referrers() {
+			var iff *ssa.If
+			neg := false
+			switch x := r.(type) {
+			case *ssa.If:
+				iff = x
+			case *ssa.UnOp:
+				if x.Op == token.NOT {
+					for _, r2 := range *x.Referrers() {
+						if i2, ok := r2.(*ssa.If); ok {
+							iff, neg = i2, true
+						}
+					}
+				}
+			}
+			if iff == nil || len(iff.Block().Succs) != 2 {
+				continue
+			}
+			yes, no := iff.Block().Succs[0], iff.Block().Succs[1]
+			if neg {
+				yes, no = no, yes
+			}
+			if len(yes.Preds) != 1 || len(no.Preds) != 1 {
+				continue
+			}
+			oy, on := opens(regionOf(hp, yes)), opens(regionOf(hp, no))
+			if !oy && !on {
+				continue // not the test that guards an open
+			}
+			n++
+			c.check(oy && !on, rule, "OPENDIR opens what IsDir says is a directory", p.Pos(call.Pos()), "directory: opened; anything else: not opened",
+				"the open is on the side of the IsDir test where the path is not a directory: every directory is refused with ENOTDIR and a plain file gets a directory handle")
+		}
+	})
+	c.okT(rule, "IsDir tests guarding an open", "?", fmt.Sprintf("%d", n))
 }
